@@ -161,6 +161,7 @@ type exitInfo struct {
 }
 
 type FnExec struct {
+	convSt     *State // state at the conversion being translated
 	labelled   map[string]*labelledGuard
 	labelOrder []string
 	eng      *Engine
